@@ -20,7 +20,9 @@ RULE = ("cases = (reflection vector, last entry non-zero, any rational magnitude
         "entries that cancel an autocorrelation lag to exactly zero (last lag included, default order); (root groups: real r / conjugate pair "
         "a+-bi with multiplicity, non-zero gain, numerator zeros and gain, construction route) for "
         "parcor_stable; the same with plain float coefficients (dyadic roots and gains, every coefficient an exact "
-        "double, degree up to 16/20); plus a grid of first-order int/float denominators. oracle = step-up "
+        "double, degree up to 16/20); (reflection vector in (-1,1): dyadic | dyadic with |k| <= 1/2 | any, r0, power-of-two "
+        "scale 2^s with s = 0 | |s| <= 60 | -700..-480 | 480..700, order given | default) for levinson_durbin / parcor "
+        "on plain float lags; plus a grid of first-order int/float denominators. oracle = step-up "
         "recursion / reference step-down in Fractions, exact Toeplitz solves, pole moduli known "
         "from the construction; non-trivial = order >= 2; distinct = distinct case hash")
 ASSUMPTIONS = [
@@ -30,6 +32,7 @@ ASSUMPTIONS = [
   "int coefficients are used only on the first-order grid, where k = a1/a0 is exactly representable",
   "float denominators beyond first order: every coefficient is exactly the rational it stands for (dyadic roots/gains), so the poles are the chosen ones; floats are used only when an a-priori rounding bound of the step-down (8 roundings counted per operation) leaves every deciding | |k| - 1 | at least 64 bounds wide, otherwise the same case runs with exact numbers",
   "ParCorError from parcor is required exactly when a yielded coefficient has modulus 1 (the division that follows is by 1-k^2 = 0)",
+  "float lags: the lags are the doubles nearest to (constructed rational lag) * 2^s and the reference is the exact recursion on those doubles (rational lags, as the property says); the tolerance is an a-priori bound of a double precision run of the recursion (delta = sum a_j r_(m-j); E as quadratic form of the coefficients or as E.(1-k^2), whichever bound is larger; k = -delta/E; coefficient update) followed by the step-down, 8 roundings counted per operation, evaluated in units of 2^s: lags, delta and E are lag-sized, coefficients are pure numbers, so for |s| <= 700 no quantity of the recursion leaves the normal double range and a lag-sized product that underflows is off by at most 2^-374 lag units (added per operation); floats are used only when every bound (coefficients, each k, error / E) is below 2^-20, otherwise the same lags run as exact numbers",
 ]
 
 
@@ -695,6 +698,189 @@ def run_stable_float(case):
   return {"nontrivial": deg >= 2, "labels": labels + ["degree %d" % deg]}
 
 
+# ------------------------------------------------- Levinson on plain float lags
+# The lags are doubles: the constructed rational lags times a power of two 2^s (any s the double
+# range takes with room to spare, |s| <= 700), rounded to the nearest double.  The reference is the
+# exact recursion on *those doubles*, so the statement is the property's own (rational lags, exact
+# reflection coefficients, error = r0.prod(1-k^2)); what is inexact is the arithmetic of the
+# recursion and of the step-down, bounded a priori below.  The recursion is homogeneous: lags, the
+# sums sum_j a_j r_(m-j) and the prediction errors are lag-sized, coefficients are pure numbers, so
+# with a power of two as the common factor every rounding is the same at every scale as long as
+# nothing leaves the normal range - the bound is evaluated on the lags divided by 2^s.
+_ETA = Fraction(1, 2 ** 300)   # per operation: a lag-sized product below 2^-1022 is off by at most
+                               # 2^-1074 <= 2^-374 lag units for s >= -700
+_FLOAT_OK = Fraction(1, 2 ** 20)   # floats are used when every bound is below this
+
+
+def levinson_float_bounds(r, p):
+  """Exact Levinson recursion of order p on the lags r (Fractions, r[0] > 0) together with bounds
+  for a double precision run of it: (ks, A_p, E_p, e_A, e_E) - e_A bounds the absolute error of
+  each computed coefficient of A_p, e_E that of the computed final error - or None when the
+  recursion breaks down (E = 0, |k| >= 1) or the bound does.
+
+  Model: delta = sum_j a_j r_(m-j) from computed coefficients, E_(m-1) either as the quadratic form
+  sum_ij r_|i-j| a_i a_j of the computed coefficients or kept as E.(1-k^2) (the larger error
+  counts), k = -delta/E, a_i += k.a_(m-i); every rounding counted _SLACK times."""
+  u = _SLACK * _U
+  A = [Fraction(1)]
+  E = Fraction(r[0])
+  e = Fraction(0)
+  e_rec = Fraction(0)
+  rmax = max(abs(v) for v in r)
+  ks = []
+
+  def quad_err(A, e):
+    n = len(A)
+    S = sum(abs(a) for a in A)
+    return (rmax * (2 * e * (n - 1) * S + e * e * (n - 1) ** 2)
+            + (n * n + 2) * u * rmax * (S + (n - 1) * e) ** 2 + _ETA)
+
+  for m in range(1, p + 1):
+    if E <= 0:
+      return None
+    eE = max(quad_err(A, e), e_rec)
+    if 2 * eE >= E:
+      return None
+    M = max(abs(a) for a in A)
+    delta = sum((A[j] * r[m - j] for j in range(m)), Fraction(0))
+    ed = (e * sum(abs(r[m - j]) for j in range(1, m))
+          + (m + 1) * u * sum((abs(A[j]) + e) * abs(r[m - j]) for j in range(m)) + _ETA)
+    k = -delta / E
+    if abs(k) >= 1:
+      return None
+    ek = _ceil(((ed + abs(k) * eE) / (E - eE)) * (1 + u) + u * abs(k) + _ETA)
+    e = _ceil(e * (1 + abs(k)) + ek * (M + e) + 2 * u * (M + e) * (1 + abs(k) + ek) + _ETA)
+    e_rec = _ceil(eE * (1 - k * k) + (E + eE) * (2 * abs(k) * ek + ek * ek)
+                  + 3 * u * (E + eE) * (1 + 2 * abs(k) * ek + ek * ek) + _ETA)
+    A = [(A[i] if i < len(A) else 0) + k * (A[m - i] if 0 <= m - i < len(A) else 0)
+         for i in range(m + 1)]
+    E *= 1 - k * k
+    ks.append(k)
+  if E <= 0:
+    return None
+  return ks, A, E, e, _ceil(max(quad_err(A, e), e_rec))
+
+
+def stepdown_bounds(A, e0):
+  """Error bounds of the coefficients k_p .. k_1 a double precision step-down yields from the monic
+  polynomial ``A`` (exact Fractions, every |k| < 1) whose computed coefficients start with absolute
+  error <= e0 (same operation model as ``float_verdict``); None when the bound breaks down."""
+  A = [Fraction(v) for v in A]
+  e = Fraction(e0)
+  u = _SLACK * _U
+  out = []
+  for m in range(len(A) - 1, 0, -1):
+    k = A[m]
+    out.append(e)
+    if m == 1:
+      break
+    M = max(abs(v) for v in A)
+    D = 1 - k * k
+    en = e * (1 + abs(k) + M + e) + 2 * u * (M + e) * (1 + abs(k) + e)
+    ed = 2 * abs(k) * e + e * e + 2 * u * (2 + 2 * abs(k) * e + e * e)
+    if D <= 0 or 2 * ed >= D:
+      return None
+    N = M * (1 + abs(k))
+    e = _ceil((en * D + N * ed) / (D * (D - ed)) + u * (N + en) / (D - ed))
+    A = [(A[i] - k * A[m - i]) / D for i in range(m)]
+  return out
+
+
+_SCALE_REGIMES = ["low", "high", "small", "low", "high", "zero", "low", "high", "small", "low"]
+
+
+def _scale(t):
+  regime, n = t
+  return {"zero": 0, "small": n % 121 - 60, "low": -700 + n, "high": 700 - n}[regime]
+
+
+def strat_levinson_float(tier):
+  pmax = 6 if tier == "quick" else 8
+
+  def dyadic(n, top=1):
+    # top = 2: |k| <= 1/2 - the rounding bound stays narrow at the higher orders as well
+    return st.sampled_from([2, 4, 8, 16] if top == 1 else [4, 8, 16]).flatmap(lambda d: st.tuples(
+      st.lists(st.integers(1 - d, d - 1).map(lambda v: v // top), min_size=n, max_size=n),
+      st.integers(1 - d, d - 1).map(lambda v: v // top).filter(lambda v: v != 0)).map(
+        lambda t: [Q(Fraction(v, d)) for v in t[0] + [t[1]]]))
+
+  def anyk(n):
+    return st.tuples(st.lists(st.one_of(*(w(_kin, 4) + [st.just(Fraction(0))])), min_size=n, max_size=n),
+                     _nz(_kin)).map(lambda t: [Q(k) for k in t[0] + [t[1]]])
+
+  def kvec(t):
+    return {"dyadic": dyadic(t[1]), "gentle": dyadic(t[1], 2), "any": anyk(t[1])}[t[0]]
+
+  return st.fixed_dictionaries(dict(
+    ks=st.tuples(st.sampled_from(["dyadic", "gentle", "any"]),
+                 st.sampled_from([0, 1, 1] + list(range(2, pmax)) * 2)).flatmap(kvec),
+    r0=st.one_of(st.fractions(min_value=Fraction(1, 8), max_value=6, max_denominator=8),
+                 st.integers(1, 48).map(lambda n: Fraction(n, 8))).map(Q),
+    scale=st.tuples(st.sampled_from(_SCALE_REGIMES), st.integers(0, 220)).map(_scale),
+    order=st.sampled_from(["default", "given"])))
+
+
+def run_levinson_float(case):
+  ks0 = [fr(k) for k in case["ks"]]
+  p = len(ks0)
+  s = case["scale"]
+  sc = Fraction(2) ** s
+  r = r_from_reflections(fr(case["r0"]), ks0)
+  rf = [float(v * sc) for v in r]
+  rx = [Fraction(x) / sc for x in rf]          # the lags the code is really given, in units of 2^s
+  labels = ["scale 2^0" if s == 0 else "scale within 2^+-60" if abs(s) <= 60 else
+            "scale 2^-700..2^-480" if s < 0 else "scale 2^480..2^700",
+            "lags exact doubles" if rx == r else "lags rounded to doubles"]
+  ref = levinson_float_bounds(rx, p)
+  bk = stepdown_bounds(ref[1], ref[3]) if ref is not None else None
+  if ref is None or bk is None or max(bk) > _FLOAT_OK or ref[4] > _FLOAT_OK * ref[2]:
+    # no useful a-priori bound for doubles: the same lags as exact numbers, exact comparison
+    res = run_levinson(dict(src="k", ks=case["ks"], r0=Q(fr(case["r0"]) * sc), order=case["order"]))
+    return {"nontrivial": res["nontrivial"],
+            "labels": labels + ["exact numbers (float bound too wide)"] + res["labels"]}
+  ks, A, E, eA, eE = ref
+  given = list(rf)
+  filt = levinson_durbin(given) if case["order"] == "default" else levinson_durbin(given, p)
+  what = "levinson_durbin(2^%d * %s as floats)" % (s, show(rx))
+  if given != rf or any(type(v) is not float for v in given):
+    raise Violation("%s changed the caller's lag list" % what)
+  num = list(filt.numerator)
+  if list(filt.denominator) != [1] or len(num) != p + 1:
+    raise Violation("%s is not an FIR filter of order %d: numerator %r, denominator %r"
+                    % (what, p, num, list(filt.denominator)))
+  for i, (c, a) in enumerate(zip(num, A)):
+    if not abs(fr(c) - a) <= eA:
+      raise Violation("%s: coefficient of z^-%d is %r, the exact recursion on these lags gives %s = %r "
+                      "(rounding bound %.3g)" % (what, i, c, a, float(a), float(eA)))
+  err = filt.error
+  if not abs(fr(err) / sc - E) <= eE:
+    raise Violation("%s: error %r is %r * 2^%d; r0 * prod(1 - k^2) = %r * 2^%d (k = %s, rounding bound %.3g)"
+                    % (what, err, float(fr(err) / sc), s, float(E), s,
+                       [float(k) for k in ks], float(eE)))
+  got, raised = collect(parcor(filt))
+  if raised or len(got) != p:
+    raise Violation("parcor(%s) yields %r%s; the recursion has %d reflection coefficients %s, all inside (-1, 1)"
+                    % (what, got, " then ParCorError" if raised else "", p, [float(k) for k in ks]))
+  for g, k, b in zip(got, ks[::-1], bk):
+    if not abs(fr(g) - k) <= b:
+      raise Violation("parcor(%s) yields %r; the reflection coefficients of the exact recursion on these lags "
+                      "are, last first, %r (%r vs %r, rounding bound %.3g)"
+                      % (what, got, [float(v) for v in ks[::-1]], g, float(k), float(b)))
+  if list(filt.numerator) != num:
+    raise Violation("parcor modified the filter it was given")
+  labels.append("float lags")
+  if abs(s) > 60:
+    labels.append("float lags, scale 2^-700..2^-480" if s < 0 else "float lags, scale 2^480..2^700")
+    if s < -545:
+      labels.append("float lags, scale below 2^-545")
+    if s > 520:
+      labels.append("float lags, scale above 2^520")
+  if p >= 4:
+    labels.append("float lags, order >= 4")
+  labels.append("order:" + ("default" if case["order"] == "default" else "given"))
+  return {"nontrivial": p >= 2, "labels": labels + ["order %d" % min(p, 9)]}
+
+
 # ---------------------------------------- first-order int / float denominators
 # (49, 98, 103, 107: plain numbers g with g * (1 / g) != 1 in double precision - the leading
 #  coefficient is divided out, not multiplied by a reciprocal)
@@ -759,6 +945,13 @@ CLAUSES = [
          shards={"quick": 16, "thorough": 32},
          doc="parcor_stable on plain float denominators (each coefficient an exact double) of degree up to 16/20, "
              "any dyadic gain: == every chosen root strictly inside the unit circle"),
+  Clause("levinson_float", strat_levinson_float, run_levinson_float, quick=700, thorough=8000,
+         floors={"float lags": .25, "float lags, scale below 2^-545": .08, "float lags, scale above 2^520": .06,
+                 "float lags, order >= 4": .1, "lags rounded to doubles": .08, "lags exact doubles": .15},
+         shards={"quick": 16, "thorough": 32},
+         doc="levinson_durbin / parcor on plain float lags (exact rational lags times 2^s, |s| <= 700, as doubles): "
+             "reflection coefficients, filter and error / 2^s agree with the exact recursion on those doubles "
+             "within the a-priori rounding bound, at every scale"),
   Enumerated("first_order", grid_first_order, run_first_order, shards={"quick": 2, "thorough": 2},
              doc="int / float first-order denominators g - g.r z^-1 over a grid of gains and poles"),
 ]
